@@ -98,7 +98,7 @@ _METHODS = {}
 _CTX = {}
 
 
-def interp_for(stubs, file=None, **kw):
+def interp_for(stubs, file=None, isa_extra=None, **kw):
     """an interpreter that resolves methods and class constants of the planner classes and the module-level names of `file`"""
     # the printers of the AST nodes the planner prints (Identifier.to_string) are interpreted too; the reserved words come from the static lexer model
     if 'tok_stubs' not in _CTX:
@@ -106,9 +106,9 @@ def interp_for(stubs, file=None, **kw):
         _CTX['tok_stubs'] = C04.lexer_token_stubs(_CTX['ctx'])
     st = dict(_CTX['tok_stubs'])
     st.update(stubs)
-    return Interp.for_file(_CTX['src'], file or PJ, ISA, st, also=('mindsdb_sql/planner/plan_join.py', 'mindsdb_sql/planner/query_planner.py', 'mindsdb_sql/planner/ts_utils.py',
+    return Interp.for_file(_CTX['src'], file or PJ, dict(ISA, **(isa_extra or {})), st, also=('mindsdb_sql/planner/plan_join.py', 'mindsdb_sql/planner/query_planner.py', 'mindsdb_sql/planner/ts_utils.py',
                                                                    'mindsdb_sql/planner/utils.py', 'mindsdb_sql/parser/ast/base.py',
-                                                                   'mindsdb_sql/parser/ast/select/identifier.py'), **kw)
+                                                                   'mindsdb_sql/parser/ast/select/identifier.py', 'mindsdb_sql/parser/ast/select/union.py'), **kw)
 
 
 def new_pjt(**attrs):
@@ -728,6 +728,9 @@ def run(ctx):
         rows += nn
         ctx.setcount('nested_select_rows', nn)
         ctx.floor('nested_select_rows', 300)
+    for label, ok, msg, line in cte_roundtrip_rows(ctx):
+        rows += 1
+        ctx.ob('C08.cte-scope', label, ok, msg, file=QP, line=line, witness='with Tab as (select * from int1.t) select * from Tab a join int2.u b on a.id = b.id')
     # ---- api-type integration: which clauses go into the fetch and which stay outside ---------------------------------------------------------------
     pads = function_named(qp, 'plan_api_db_select')
     if pads is None:
@@ -797,7 +800,7 @@ def run(ctx):
             stubs['self.plan_select'] = plan_select
             stubs['self.plan.add_step'] = lambda it, s2: (added.append(s2), s2)[1]
             stubs['UnionStep'] = lambda it, **k: Obj('UnionStep', **k)
-            it = Interp.for_file(ctx.src, QP, dict(ISA, **{'Union': set(), 'Except': set(), 'Intersect': set()}), stubs)
+            it = interp_for(stubs, file=QP, isa_extra={'Union': {'CombiningQuery'}, 'Except': {'CombiningQuery'}, 'Intersect': {'CombiningQuery'}})
             res = it.call_function(pu, [Obj('QueryPlanner'), Obj(kind, left=left, right=right, unique=unique)], {}, _env())
             rows += 1
             ok = len(added) == 1 and res is added[0] and added[0].attrs.get('operation') == want_op and added[0].attrs.get('unique') is unique \
@@ -898,6 +901,50 @@ def check_where_kept(ctx, fn, cmp_):
     ctx.setcount('where_kept_rows', n)
     ctx.floor('where_kept_rows', 40)
     return n
+
+
+def cte_roundtrip_rows(ctx):
+    """plan_cte (the writer of cte_results) and get_integration_select_step (its reader), both interpreted: a CTE declared under some spelling and referenced
+    under the same spelling is found - the step reads the CTE's result; whatever the letter case, the lookup never fails with an internal error.
+    -> [(label, ok, message, line)]"""
+    QP = 'mindsdb_sql/planner/query_planner.py'
+    qp = class_named(ctx.src.tree(QP), 'QueryPlanner')
+    gis, pc = function_named(qp, 'get_integration_select_step'), function_named(qp, 'plan_cte')
+    if gis is None or pc is None:
+        raise AnalysisError('get_integration_select_step / plan_cte not found')
+    if not _CTX.get('src'):
+        _CTX.update(tree=ctx.src.tree(PJ), src=ctx.src, ctx=ctx)
+    out = []
+    for declared, referenced in (('sales', 'sales'), ('Sales', 'Sales'), ('SALES', 'SALES'), ('mySales', 'mySales'), ('Sales', 'sales'), ('sales', 'SALES')):
+        self_ = Obj('QueryPlanner', default_namespace='mindsdb', cte_results={})
+        stubs = base_stubs()
+        stubs['self.plan_select'] = lambda it, q, *a, **k: Obj('Step', result='R-cte')
+
+        def resolve(it, node):
+            p = list(node.parts)
+            db = 'mindsdb'
+            if len(p) > 1 and p[0].lower() in ('int1', 'int2', 'mindsdb'):
+                db = p.pop(0).lower()
+            return (db, Obj('Identifier', parts=p, alias=None))
+        stubs['self.resolve_database_table'] = resolve
+        stubs['self.prepare_integration_select'] = lambda it, db, q: None
+        stubs['SubSelectStep'] = lambda it, q, res, **k: Obj('SubSelectStep', query=q, dataframe=res, **k)
+        stubs['FetchDataframeStep'] = lambda it, **k: Obj('FetchDataframeStep', **k)
+        query = select_ctor(None, cte=[Obj('CommonTableExpression', name=Obj('Identifier', parts=[declared], alias=None), query=select_ctor(None))])
+        label = f'WITH {declared} AS (..) .. FROM {referenced}'
+        try:
+            interp_for(stubs, file=QP).call_function(pc, [self_, query], {}, _env())
+            res = interp_for(stubs, file=QP).call_function(gis, [self_, select_ctor(None, from_table=ident(referenced), targets=[Obj('Star')])], {}, _env())
+            got = ('cte', res.attrs.get('dataframe')) if res.kind == 'SubSelectStep' else ('table', res.attrs.get('integration'))
+        except Raised as r:
+            got = ('raises', r.exc_name)
+        if declared == referenced:
+            ok = got == ('cte', 'R-cte')
+        else:
+            ok = got[0] != 'raises' and (got[0] == 'table' or got == ('cte', 'R-cte'))
+        out.append((label, ok, f'[{label}] the reference is planned as {got}: a CTE referenced as it was declared reads the CTE\'s result; a lookup that finds the name under one '
+                               f'spelling and reads it under another fails with an internal error', gis.lineno))
+    return out
 
 
 def _all_nodes(n):
